@@ -4,6 +4,7 @@ package shmipc
 
 import (
 	"fmt"
+	"strings"
 	"path/filepath"
 	"sort"
 	"testing"
@@ -185,6 +186,36 @@ func socketPairConns() (net.Conn, net.Conn) {
 }
 
 func sysWrite(fd int, b []byte) (int, error) { return syscall.Write(fd, b) }
+func syscallMunmap(b []byte)                   { syscall.Munmap(b) }
+
+// mappedPaths lists the mappings of this OS process whose backing object carries the given name (shared-memory
+// files and memfds are named after the pair).
+func mappedPaths(name string) []string {
+	b, err := os.ReadFile("/proc/self/maps")
+	if err != nil {
+		return nil
+	}
+	seen := map[string]bool{}
+	var out []string
+	for _, l := range strings.Split(string(b), "\n") {
+		if i := strings.Index(l, name); i >= 0 {
+			f := strings.Fields(l)
+			if len(f) > 1 && strings.HasPrefix(f[1], "---") {
+				continue // unmapped by the code under test (kept PROT_NONE until the execution is torn down)
+			}
+			pth := f[len(f)-1]
+			if len(f) >= 6 {
+				pth = strings.Join(f[5:], " ")
+			}
+			if !seen[pth] {
+				seen[pth] = true
+				out = append(out, pth)
+			}
+		}
+	}
+	sort.Strings(out)
+	return out
+}
 
 // trackConn makes sure a connection object created by the harness is closed through the object when the execution is
 // torn down (never only by descriptor number: its finalizer would close that number again at some later time, when
